@@ -222,7 +222,7 @@ func Run(r *hk.Run) {
 		"distinct by (constraint, sort, limit, world size)"
 	probes(r)
 	malformed(r)
-	worlds, consPer, maxDepth := 110, 5, 3
+	worlds, consPer, maxDepth := 150, 6, 3
 	if r.Thorough() {
 		worlds, consPer, maxDepth = 1500, 7, 4
 	}
@@ -263,7 +263,11 @@ func Run(r *hk.Run) {
 				lims = []int{1, 2, 3, 0}
 			}
 			for _, s := range allSorts {
-				for _, l := range lims {
+				for i, l := range lims {
+					// an invalid constraint or an unsupported sort is rejected whatever the limit: once is enough
+					if i > 0 && (!ValidTop(cons) || mw.Expect(s, l, cons).Unsupported) {
+						continue
+					}
 					c.query(s, l, cons, class)
 				}
 			}
